@@ -165,7 +165,9 @@ PROPS["C08"] = {
 
 PROPS["C04"] = {
     "lean": ["MysyncProofs.C04"],
-    "go": [("internal/app", "^TestVerifC04$")],
+    # "the list never contains hosts marked for recovery, even when an iteration is cut short": the marking itself happens in the
+    # switchover procedure and in the stale-master repair (C01's and C10's harnesses, C04-prefixed monitor)
+    "go": [("internal/app", "^TestVerifC04$"), ("internal/app", "^TestVerifC01$"), ("internal/app", "^TestVerifC10$")],
     "level": "proof",
     "components": ["MysyncModel/App/ActiveNodes.lean (calcActiveNodes incl. the NodeFailedAt timers, calcActiveNodesChanges incl. calcLagBytes and slaveReadPositions, updateActiveNodes in both adjust orders as a sequential procedure with a failure oracle, canShrinkActiveNodes, adjustSemiSyncOnMaster, enable/disableSemiSyncOnSlave, the semi-sync world with invariants (a) and (b))",
                    "MysyncModel/Generated/SwitchHelper.lean (regenerated)", "MysyncModel/GtidParse.lean, Gtid.lean"],
